@@ -477,7 +477,7 @@ bool plan_valid(const Plan &p, std::string &why)
                         return bad("implicit write with read/run/test handler");
                 if (c.var_null && !c.vars.empty())
                         return bad("varnull with vars");
-                if (c.ev && c.registered && !c.disable)
+                if (c.ev && c.registered && !c.disable && p.prop != "C03R")
                         return bad("event source reachable from the input (units would not be attributable)");
                 for (auto &v : c.vars) {
                         if (v.type < 0 || v.type > 4)
@@ -501,7 +501,7 @@ bool plan_valid(const Plan &p, std::string &why)
                                         return bad("script trigger on a command that is not an event source");
                                 if (s.act == A_TRIG && c.ev)
                                         return bad("event handler triggering events (unbounded)");
-                                if (s.code == RC_HOLD && c.ev)
+                                if (s.code == RC_HOLD && c.ev && p.prop != "C03R")
                                         return bad("HOLD returned by an event source (outside every property)");
                                 if ((s.act == A_SETTEXT || s.act == A_APPEND) && (k == K_WRITE || k == K_RUN))
                                         return bad("text action in write/run script");
@@ -522,6 +522,8 @@ bool plan_valid(const Plan &p, std::string &why)
                                 if ((int)t.size() == p.ev_cap() - 1 || (int)before_desc == p.ev_cap() - 1)
                                         return bad("event TEST text exactly at capacity (newline style would decide the fit)");
                         }
+        if ((p.prop == "C12" || p.prop == "C20") && (p.ops.empty() || p.ops.back().kind != OP_DRAIN))
+                return bad("twin-run plans must end with a drain");
         for (auto &o : p.ops) {
                 switch (o.kind) {
                 case OP_TRIG:
